@@ -101,16 +101,74 @@ Fixpoint prefix_b (p s : list Z) : bool :=
 Fixpoint contains (p s : list Z) : bool :=
   prefix_b p s || match s with [] => false | _ :: t => contains p t end.
 
-Definition s_all : list Z := [97;108;108].
-Definition s_all_others : list Z := [97;108;108;95;111;116;104;101;114;115].
-Definition s_re_all : list Z := [126;94;46;42;36].                  (* "~^.*$" *)
-Definition ph_path : list Z := [37;112;97;116;104].                 (* "%path" *)
+(* ------------------------------------------------------------------------------------- *)
+(* Conf.Validate / Path.validate (internal/conf/conf.go, path.go).
+
+   Every `if cond { return fmt.Errorf(...) }` whose inputs are plain fields (numbers, durations, enumerations,
+   booleans, string emptiness / prefixes / placeholders, list membership, mutual exclusions) is a [chk cond E] below,
+   in code order; every deprecated-parameter migration that copies a value is part of the [*_migrate] functions.
+   What stays an oracle boolean (computed per case by the real helper) is a genuine library call:
+   IsValidPathName (regexp), regexp.Compile, validateURL (url.Parse), net.SplitHostPort, checkRedirect
+   (base.ParseURL), Forward.Validate (url.Parse), checkAlwaysAvailableFile (file system, MP4 reader),
+   rePlainCredential.MatchString (regexp), reflect.DeepEqual (users = the default users).
+   The error constructors [verr] are tied to the Go error sites by Model/C10_Sites.v. *)
+From Coq Require Import String Ascii.
+
+Fixpoint bytes (s : string) : list Z :=
+  match s with
+  | EmptyString => []
+  | String a r => Z.of_N (N_of_ascii a) :: bytes r
+  end.
+Arguments bytes s%string_scope.
+
+Definition nonempty (s : list Z) : bool := match s with [] => false | _ => true end.
+Definition empty (s : list Z) : bool := negb (nonempty s).
+Definition str_in (s : list Z) (l : list (list Z)) : bool := existsb (list_eqb s) l.
+Definition is_none {A} (o : option A) : bool := match o with None => true | Some _ => false end.
+(* `if dep != nil { cur = *dep }` *)
+Definition opt_or {A} (dep : option A) (cur : A) : A := match dep with Some v => v | None => cur end.
+
+Inductive verr :=
+(* Conf.Validate *)
+| E_read_timeout | E_write_timeout | E_wqs_pos | E_wqs_pow2 | E_udp_max
+| E_users_and_legacy | E_user_empty | E_any_pass
+| E_http_addr_empty | E_http_addr_scheme | E_jwks_empty | E_jwks_scheme | E_claim_empty
+| E_api_addr | E_metrics_addr | E_pprof_addr | E_playback_addr
+| E_rtsp_addr | E_rtp_addr | E_rtcp_addr | E_mc_range_plain | E_mc_rtp | E_mc_rtcp
+| E_rtsps_addr | E_srtp_addr | E_srtcp_addr | E_mc_range_secure | E_mc_srtp | E_mc_srtcp
+| E_rtsp_auth_methods | E_digest_method | E_digest_hashed
+| E_rtmp_addr | E_hls_addr | E_hls_secret
+| E_webrtc_addr | E_ice_server | E_webrtc_no_transport | E_webrtc_no_hosts
+| E_moq_addr | E_aliases | E_dep_any_pass | E_dep_digest_hashed
+(* Path.validate *)
+| E_name | E_regexp | E_srt_pub_source | E_redirect_useless | E_srt_pub_len
+| E_url | E_hostport | E_rtp_sdp | E_redirect_empty | E_redirect
+| E_rpi_w | E_rpi_h | E_rpi_w_mjpeg | E_rpi_h_mjpeg | E_rpi_exposure | E_rpi_awb | E_rpi_gains | E_rpi_denoise
+| E_rpi_metering | E_rpi_afmode | E_rpi_afrange | E_rpi_afspeed | E_rpi_hw_profile | E_rpi_hw_level
+| E_rpi_sw_profile | E_rpi_sw_level | E_rpi_profile | E_rpi_level | E_rpi_codec
+| E_rpi_dup | E_rpi_no_primary | E_rpi_multi_secondary | E_source_invalid
+| E_on_demand_publisher | E_regex_static_demand | E_srt_read_len | E_forward | E_fallback | E_tracks
+| E_aa_regex | E_aa_on_demand | E_aa_run_on_demand | E_aa_file_and_tracks | E_aa_file | E_aa_no_tracks | E_aa_abs_ts
+| E_rec_path | E_rec_ts | E_rec_f | E_seg_max | E_del_lt_seg | E_run_on_init_regex | E_run_on_demand_source.
+
+(* sequencing of checks: the first error wins *)
+Definition chk (cond : bool) (e : verr) : option verr := if cond then Some e else None.
+Definition when (cond : bool) (x : option verr) : option verr := if cond then x else None.
+Definition orelse (a b : option verr) : option verr := match a with Some e => Some e | None => b end.
+Infix ";;" := orelse (at level 61, right associativity).
+
+Definition s_all : list Z := bytes "all".
+Definition s_all_others : list Z := bytes "all_others".
+Definition s_re_all : list Z := bytes "~^.*$".
+Definition s_any : list Z := bytes "any".
+Definition ph_path : list Z := bytes "%path".
 Definition ph (c : Z) : list Z := [37; c].                          (* "%Y" ... *)
 Definition day_ns : Z := 86400000000000.
 
+(* ---- sources *)
 Inductive src :=
 | SPublisher | SRedirect | SRpi
-| SStatic (ok : bool)      (* rtsp://, rtmp://, http://, udp://, srt://, whep://, ... ; ok = oracle: validateURL &c. passed *)
+| SStatic (ok : bool)      (* rtsp://, rtmp://, http://, udp://, srt://, whep://, ... ; ok = its URL / port / SDP checks passed *)
 | SInvalid.
 
 Definition src_eqb (a b : src) : bool :=
@@ -120,54 +178,197 @@ Definition src_eqb (a b : src) : bool :=
   | _, _ => false
   end.
 
+(* what the `case strings.HasPrefix(pconf.Source, ...)` branch of a static source checks *)
+Inductive skind :=
+| KRtsp          (* validateURL; sourceProtocol / sourceAnyPortEnable migrations *)
+| KUrl           (* validateURL *)
+| KUrlPort       (* validateURL, net.SplitHostPort *)
+| KNothing       (* unix+mpegts:// *)
+| KUrlPortSdp    (* udp+rtp://: validateURL, SplitHostPort, rtpSDP != "" *)
+| KSdp.          (* unix+rtp://: rtpSDP != "" *)
+
+Definition static_prefixes : list (list Z * skind) :=
+  [(bytes "rtsp://", KRtsp); (bytes "rtsps://", KRtsp); (bytes "rtsp+http://", KRtsp); (bytes "rtsps+http://", KRtsp);
+   (bytes "rtsp+ws://", KRtsp); (bytes "rtsps+ws://", KRtsp);
+   (bytes "rtmp://", KUrl); (bytes "rtmps://", KUrl); (bytes "http://", KUrl); (bytes "https://", KUrl);
+   (bytes "udp://", KUrlPort); (bytes "udp+mpegts://", KUrlPort); (bytes "unix+mpegts://", KNothing);
+   (bytes "udp+rtp://", KUrlPortSdp); (bytes "unix+rtp://", KSdp);
+   (bytes "srt://", KUrl); (bytes "moqt://", KUrl); (bytes "whep://", KUrl); (bytes "wheps://", KUrl)].
+
+Definition find_static (s : list Z) : option skind :=
+  match find (fun pk => prefix_b (fst pk) s) static_prefixes with
+  | Some pk => Some (snd pk)
+  | None => None
+  end.
+
+(* first error of a static branch: E_url (validateURL), then E_hostport, then E_rtp_sdp *)
+Definition static_err (k : skind) (url_ok hostport_ok sdp : bool) : option verr :=
+  match k with
+  | KRtsp | KUrl => chk (negb url_ok) E_url
+  | KUrlPort => chk (negb url_ok) E_url ;; chk (negb hostport_ok) E_hostport
+  | KNothing => None
+  | KUrlPortSdp => chk (negb url_ok) E_url ;; chk (negb hostport_ok) E_hostport ;; chk (negb sdp) E_rtp_sdp
+  | KSdp => chk (negb sdp) E_rtp_sdp
+  end.
+
+(* ---- users (authInternalUsers) *)
+Record userc := {
+  u_user : list Z;
+  u_pass : list Z;
+  u_nips : Z;                      (* len(IPs) *)
+  u_perms : list (Z * list Z)      (* (action, path); action 0 publish 1 read 2 playback 3 api 4 metrics 5 pprof 6 other *)
+}.
+
+(* Credential.IsHashed *)
+Definition hashed (s : list Z) : bool := prefix_b (bytes "sha256:") s || prefix_b (bytes "argon2:") s.
+
+(* the users installed by the deprecated-credentials mode of Conf.Validate *)
+Definition base_users : list userc :=
+  [{| u_user := s_any; u_pass := []; u_nips := 0; u_perms := [(2, [])] |};
+   {| u_user := s_any; u_pass := []; u_nips := 2; u_perms := [(3, []); (4, []); (5, [])] |}].
+
+Definition user_err (u : userc) : option verr :=
+  chk (empty (u_user u)) E_user_empty ;;
+  chk (list_eqb (u_user u) s_any && nonempty (u_pass u)) E_any_pass.
+
+Fixpoint users_err (us : list userc) : option verr :=
+  match us with
+  | [] => None
+  | u :: r => user_err u ;; users_err r
+  end.
+
+(* ---- per-path plain fields added to the first version of this model *)
+Record pext := {
+  e_url_ok : bool;                   (* oracle: validateURL(source) *)
+  e_hostport_ok : bool;              (* oracle: net.SplitHostPort(u.Host) *)
+  e_rtp_sdp : bool;                  (* RTPSDP != "" *)
+  e_dis_pub_override : option bool;  (* deprecated, replaced by overridePublisher *)
+  e_override_publisher : bool;
+  e_source_protocol : option Z;      (* deprecated, replaced by rtspTransport; 0 automatic 1 udp 2 multicast 3 tcp *)
+  e_rtsp_transport : Z;
+  e_source_any_port : option bool;   (* deprecated, replaced by rtspAnyPort *)
+  e_rtsp_any_port : bool;
+  e_w : Z;                           (* rpiCameraWidth (uint) *)
+  e_h : Z;
+  e_codec : list Z;
+  e_exposure : list Z;
+  e_awb : list Z;
+  e_awb_gains : Z;                   (* len(RPICameraAWBGains) *)
+  e_denoise : list Z;
+  e_metering : list Z;
+  e_afmode : list Z;
+  e_afrange : list Z;
+  e_afspeed : list Z;
+  e_profile : option (list Z);       (* deprecated rpiCameraProfile -> rpiCameraHardwareH264Profile *)
+  e_level : option (list Z);         (* deprecated rpiCameraLevel -> rpiCameraHardwareH264Level *)
+  e_hw_profile : option (list Z);
+  e_hw_level : option (list Z);
+  e_sw_profile : option (list Z);
+  e_sw_level : option (list Z);
+  e_h264_profile : list Z;
+  e_h264_level : list Z;
+  e_jpeg_q : option Z;               (* deprecated rpiCameraJPEGQuality -> rpiCameraMJPEGQuality *)
+  e_mjpeg_q : Z;
+  e_aa_file : bool;                  (* AlwaysAvailableFile != "" *)
+  e_aa_file_ok : bool;               (* oracle: checkAlwaysAvailableFile *)
+  e_pub_user : option (list Z);      (* deprecated credentials *)
+  e_pub_pass : option (list Z);
+  e_pub_ips : option Z;              (* len(PublishIPs) *)
+  e_read_user : option (list Z);
+  e_read_pass : option (list Z);
+  e_read_ips : option Z;
+  e_on_ready : option (list Z);      (* deprecated runOnReady -> runOnAvailable *)
+  e_on_available : list Z;
+  e_ready_restart : option bool;     (* deprecated runOnReadyRestart -> runOnAvailableRestart *)
+  e_available_restart : bool;
+  e_on_not_ready : option (list Z);  (* deprecated runOnNotReady -> runOnUnavailable *)
+  e_on_unavailable : list Z
+}.
+
 Record pathc := {
   p_name : list Z;
   p_name_ok : bool;        (* oracle: IsValidPathName (plain name) / regexp.Compile (name after '~') *)
   p_regex : bool;          (* output: Regexp != nil *)
-  p_source : src;
+  p_source_str : list Z;   (* Source *)
   p_on_demand : bool;
   p_srt_pub : Z;           (* len(SRTPublishPassphrase) *)
   p_srt_read : Z;          (* len(SRTReadPassphrase) *)
   p_redirect : bool;       (* SourceRedirect != "" *)
-  p_redirect_ok : bool;    (* oracle: checkRedirect *)
+  p_redirect_ok : bool;    (* oracle: checkRedirect(SourceRedirect) *)
   p_cam : Z;
   p_secondary : bool;
-  p_rpi_ok : bool;         (* oracle: width/height/enumerated rpiCamera parameter checks *)
-  p_other_ok : bool;       (* oracle: Forward.Validate, fallback *)
+  p_forward_ok : bool;     (* oracle: Forward.Validate *)
+  p_fallback_ok : bool;    (* oracle: Fallback == nil || checkRedirect(Fallback) == nil *)
   p_aa : bool;             (* AlwaysAvailable *)
-  p_aa_src_ok : bool;      (* oracle: the alwaysAvailableFile / alwaysAvailableTracks alternative *)
   p_abs_ts : bool;
   p_run_init : bool;       (* RunOnInit != "" *)
   p_run_demand : bool;     (* RunOnDemand != "" || RunOnUnDemand != "" *)
   p_record_path : list Z;
   p_seg : Z;               (* RecordSegmentDuration, ns *)
   p_del : Z;               (* RecordDeleteAfter, ns *)
-  p_tracks : list (Z * Z * Z)  (* AlwaysAvailableTracks: (codec class, sampleRate, channelCount); class 0 = AV1/VP9/H265/H264/Opus,
-                                  1 = MPEG4Audio, 2 = G711/LPCM, 3 = anything else *)
+  p_tracks : list (Z * Z * Z);  (* AlwaysAvailableTracks: (codec class, sampleRate, channelCount); class 0 = AV1/VP9/H265/H264/Opus,
+                                   1 = MPEG4Audio, 2 = G711/LPCM, 3 = anything else *)
+  p_x : pext
 }.
 
-Definition set_regex (p : pathc) (r : bool) : pathc :=
-  {| p_name := p_name p; p_name_ok := p_name_ok p; p_regex := r; p_source := p_source p;
+(* the `switch` on pconf.Source, as a classification of the string *)
+Definition p_source (p : pathc) : src :=
+  let s := p_source_str p in
+  if list_eqb s (bytes "publisher") then SPublisher else
+  match find_static s with
+  | Some k => SStatic (is_none (static_err k (e_url_ok (p_x p)) (e_hostport_ok (p_x p)) (e_rtp_sdp (p_x p))))
+  | None =>
+      if list_eqb s (bytes "redirect") then SRedirect else
+      if list_eqb s (bytes "rpiCamera") then SRpi else SInvalid
+  end.
+
+Definition is_rtsp_source (p : pathc) : bool :=
+  negb (list_eqb (p_source_str p) (bytes "publisher")) &&
+  match find_static (p_source_str p) with Some KRtsp => true | _ => false end.
+
+(* deprecated parameters copied by Path.validate (each inside the branch of the source switch where the code has it) *)
+Definition pext_migrate (s : src) (rtsp : bool) (e : pext) : pext :=
+  let rpi := src_eqb s SRpi in
+  {| e_url_ok := e_url_ok e; e_hostport_ok := e_hostport_ok e; e_rtp_sdp := e_rtp_sdp e;
+     e_dis_pub_override := e_dis_pub_override e;
+     e_override_publisher :=
+       if src_eqb s SPublisher
+       then match e_dis_pub_override e with Some d => negb d | None => e_override_publisher e end
+       else e_override_publisher e;
+     e_source_protocol := e_source_protocol e;
+     e_rtsp_transport := if rtsp then opt_or (e_source_protocol e) (e_rtsp_transport e) else e_rtsp_transport e;
+     e_source_any_port := e_source_any_port e;
+     e_rtsp_any_port := if rtsp then opt_or (e_source_any_port e) (e_rtsp_any_port e) else e_rtsp_any_port e;
+     e_w := e_w e; e_h := e_h e; e_codec := e_codec e; e_exposure := e_exposure e; e_awb := e_awb e;
+     e_awb_gains := e_awb_gains e; e_denoise := e_denoise e; e_metering := e_metering e; e_afmode := e_afmode e;
+     e_afrange := e_afrange e; e_afspeed := e_afspeed e;
+     e_profile := e_profile e; e_level := e_level e;
+     e_hw_profile := if rpi then match e_profile e with Some v => Some v | None => e_hw_profile e end else e_hw_profile e;
+     e_hw_level := if rpi then match e_level e with Some v => Some v | None => e_hw_level e end else e_hw_level e;
+     e_sw_profile := e_sw_profile e; e_sw_level := e_sw_level e;
+     e_h264_profile := e_h264_profile e; e_h264_level := e_h264_level e;
+     e_jpeg_q := e_jpeg_q e;
+     e_mjpeg_q := if rpi then opt_or (e_jpeg_q e) (e_mjpeg_q e) else e_mjpeg_q e;
+     e_aa_file := e_aa_file e; e_aa_file_ok := e_aa_file_ok e;
+     e_pub_user := e_pub_user e; e_pub_pass := e_pub_pass e; e_pub_ips := e_pub_ips e;
+     e_read_user := e_read_user e; e_read_pass := e_read_pass e; e_read_ips := e_read_ips e;
+     e_on_ready := e_on_ready e; e_on_available := opt_or (e_on_ready e) (e_on_available e);
+     e_ready_restart := e_ready_restart e; e_available_restart := opt_or (e_ready_restart e) (e_available_restart e);
+     e_on_not_ready := e_on_not_ready e; e_on_unavailable := opt_or (e_on_not_ready e) (e_on_unavailable e) |}.
+
+(* what Path.validate leaves in the path: Regexp, and the migrated parameters *)
+Definition finish_path (p : pathc) (r : bool) : pathc :=
+  {| p_name := p_name p; p_name_ok := p_name_ok p; p_regex := r; p_source_str := p_source_str p;
      p_on_demand := p_on_demand p; p_srt_pub := p_srt_pub p; p_srt_read := p_srt_read p;
      p_redirect := p_redirect p; p_redirect_ok := p_redirect_ok p; p_cam := p_cam p;
-     p_secondary := p_secondary p; p_rpi_ok := p_rpi_ok p; p_other_ok := p_other_ok p; p_aa := p_aa p;
-     p_aa_src_ok := p_aa_src_ok p; p_abs_ts := p_abs_ts p; p_run_init := p_run_init p;
-     p_run_demand := p_run_demand p; p_record_path := p_record_path p; p_seg := p_seg p; p_del := p_del p; p_tracks := p_tracks p |}.
+     p_secondary := p_secondary p; p_forward_ok := p_forward_ok p; p_fallback_ok := p_fallback_ok p; p_aa := p_aa p;
+     p_abs_ts := p_abs_ts p; p_run_init := p_run_init p;
+     p_run_demand := p_run_demand p; p_record_path := p_record_path p; p_seg := p_seg p; p_del := p_del p;
+     p_tracks := p_tracks p; p_x := pext_migrate (p_source p) (is_rtsp_source p) (p_x p) |}.
 
-Record gconf := {
-  g_read_to : Z;                   (* ReadTimeout, ns *)
-  g_write_to : Z;
-  g_wqs : Z;                       (* WriteQueueSize *)
-  g_read_buffer_count : option Z;  (* deprecated: overrides WriteQueueSize *)
-  g_udp : Z;                       (* UDPMaxPayloadSize *)
-  g_playback : bool;
-  g_other_ok : bool;               (* oracle: every other global check (auth, addresses, RTSP, WebRTC, ...) *)
-  g_paths : list pathc             (* merged path configurations, in sortedKeys order *)
-}.
-
-Inductive result (A : Type) := Ok (x : A) | Err.
+Inductive result (A : Type) := Ok (x : A) | Err (e : verr).
 Arguments Ok {A} _.
-Arguments Err {A}.
+Arguments Err {A} _.
 
 Definition is_alias (n : list Z) : bool := list_eqb n s_all || list_eqb n s_all_others || list_eqb n s_re_all.
 Definition name_is_regex (n : list Z) : bool :=
@@ -183,58 +384,128 @@ Definition track_ok (t : Z * Z * Z) : bool :=
   else false.
 Definition is_primary (p : pathc) : bool := src_eqb (p_source p) SRpi && negb (p_secondary p).
 Definition primaries_with (c : Z) (ps : list pathc) : nat :=
-  length (filter (fun q => is_primary q && (p_cam q =? c)) ps).
+  List.length (filter (fun q => is_primary q && (p_cam q =? c)) ps).
 
+(* the three record path checks *)
+Definition rec_has_path (rp : list Z) : bool := contains ph_path rp.
+Definition rec_has_ts (rp : list Z) : bool :=
+  contains (ph 115) rp ||                                      (* %s *)
+  (contains (ph 89) rp && contains (ph 109) rp && contains (ph 100) rp &&
+   contains (ph 72) rp && contains (ph 77) rp && contains (ph 83) rp).      (* %Y %m %d %H %M %S *)
 Definition record_path_ok (playback : bool) (rp : list Z) : bool :=
-  contains ph_path rp &&
-  (contains (ph 115) rp ||                                     (* %s *)
-   (contains (ph 89) rp && contains (ph 109) rp && contains (ph 100) rp &&
-    contains (ph 72) rp && contains (ph 77) rp && contains (ph 83) rp)) &&   (* %Y %m %d %H %M %S *)
-  (negb playback || contains (ph 102) rp).                     (* %f *)
+  rec_has_path rp && rec_has_ts rp && (negb playback || contains (ph 102) rp).   (* %f *)
+
+(* name: all / all_others; a plain name (IsValidPathName); "~" + regular expression (regexp.Compile) *)
+Definition name_err (p : pathc) : option verr :=
+  let n := p_name p in
+  if list_eqb n s_all_others || list_eqb n s_all then None
+  else match n with
+       | 126 :: _ => chk (negb (p_name_ok p)) E_regexp
+       | _ => chk (negb (p_name_ok p)) E_name
+       end.
+
+(* enumerated rpiCamera parameters *)
+Definition l_exposure := [bytes "normal"; bytes "short"; bytes "long"; bytes "custom"].
+Definition l_awb := [bytes "auto"; bytes "incandescent"; bytes "tungsten"; bytes "fluorescent"; bytes "indoor";
+                     bytes "daylight"; bytes "cloudy"; bytes "custom"].
+Definition l_denoise := [bytes "off"; bytes "cdn_off"; bytes "cdn_fast"; bytes "cdn_hq"].
+Definition l_metering := [bytes "centre"; bytes "spot"; bytes "matrix"; bytes "custom"].
+Definition l_afmode := [bytes "auto"; bytes "manual"; bytes "continuous"].
+Definition l_afrange := [bytes "normal"; bytes "macro"; bytes "full"].
+Definition l_afspeed := [bytes "normal"; bytes "fast"].
+Definition l_profile3 := [bytes "baseline"; bytes "main"; bytes "high"].
+Definition l_profile4 := bytes "auto" :: l_profile3.
+Definition l_level := [bytes "4.0"; bytes "4.1"; bytes "4.2"].
+Definition l_codec := [bytes "auto"; bytes "hardwareH264"; bytes "softwareH264"; bytes "mjpeg"].
+
+Definition opt_in (o : option (list Z)) (l : list (list Z)) : bool :=
+  match o with Some v => str_in v l | None => true end.
+Definition mjpeg_dims (secondary : bool) (e : pext) : bool :=
+  list_eqb (e_codec e) (bytes "mjpeg") || (secondary && list_eqb (e_codec e) (bytes "auto")).
+Definition dim_bad (d : Z) : bool := (2048 <=? d) || negb (d mod 8 =? 0).
+
+(* case pconf.Source == "rpiCamera", up to the primary/secondary pairing *)
+Definition rpi_params_err (secondary : bool) (e : pext) : option verr :=
+  chk (e_w e =? 0) E_rpi_w ;;
+  chk (e_h e =? 0) E_rpi_h ;;
+  when (mjpeg_dims secondary e) (chk (dim_bad (e_w e)) E_rpi_w_mjpeg ;; chk (dim_bad (e_h e)) E_rpi_h_mjpeg) ;;
+  chk (negb (str_in (e_exposure e) l_exposure)) E_rpi_exposure ;;
+  chk (negb (str_in (e_awb e) l_awb)) E_rpi_awb ;;
+  chk (negb (e_awb_gains e =? 2)) E_rpi_gains ;;
+  chk (negb (str_in (e_denoise e) l_denoise)) E_rpi_denoise ;;
+  chk (negb (str_in (e_metering e) l_metering)) E_rpi_metering ;;
+  chk (negb (str_in (e_afmode e) l_afmode)) E_rpi_afmode ;;
+  chk (negb (str_in (e_afrange e) l_afrange)) E_rpi_afrange ;;
+  chk (negb (str_in (e_afspeed e) l_afspeed)) E_rpi_afspeed ;;
+  (* rpiCameraProfile / rpiCameraLevel have been copied to the hardware parameters at this point *)
+  chk (negb (opt_in (match e_profile e with Some v => Some v | None => e_hw_profile e end) l_profile3)) E_rpi_hw_profile ;;
+  chk (negb (opt_in (match e_level e with Some v => Some v | None => e_hw_level e end) l_level)) E_rpi_hw_level ;;
+  chk (negb (opt_in (e_sw_profile e) l_profile3)) E_rpi_sw_profile ;;
+  chk (negb (opt_in (e_sw_level e) l_level)) E_rpi_sw_level ;;
+  chk (negb (str_in (e_h264_profile e) l_profile4)) E_rpi_profile ;;
+  chk (negb (str_in (e_h264_level e) l_level)) E_rpi_level ;;
+  chk (negb (str_in (e_codec e) l_codec)) E_rpi_codec.
 
 (* the switch on pconf.Source of Path.validate. [all] = every merged path (conf.Paths),
    [taken] = camera ids whose primary already got a secondary (primary.RPICameraSecondaryWidth != 0) *)
-Definition source_ok (all : list pathc) (taken : list Z) (p : pathc) : bool :=
+Definition source_err (all : list pathc) (taken : list Z) (p : pathc) : option verr :=
   match p_source p with
-  | SPublisher => negb (negb (p_srt_pub p =? 0) && negb (srt_len_ok (p_srt_pub p)))   (* checkSRTPassphrase *)
-  | SStatic ok => ok                                        (* validateURL, SplitHostPort, rtpSDP *)
-  | SRedirect => p_redirect p && p_redirect_ok p            (* "source redirect must be filled", checkRedirect *)
+  | SPublisher => chk (negb (p_srt_pub p =? 0) && negb (srt_len_ok (p_srt_pub p))) E_srt_pub_len   (* checkSRTPassphrase *)
+  | SStatic _ =>
+      match find_static (p_source_str p) with
+      | Some k => static_err k (e_url_ok (p_x p)) (e_hostport_ok (p_x p)) (e_rtp_sdp (p_x p))
+      | None => None
+      end
+  | SRedirect => chk (negb (p_redirect p)) E_redirect_empty ;; chk (negb (p_redirect_ok p)) E_redirect
   | SRpi =>
-      p_rpi_ok p &&
+      rpi_params_err (p_secondary p) (p_x p) ;;
       if p_secondary p
-      then negb (Nat.eqb (primaries_with (p_cam p) all) 0)  (* "cannot find a primary RPI Camera stream" *)
-           && negb (existsb (Z.eqb (p_cam p)) taken)        (* "associated with multiple secondary streams" *)
-      else negb (Nat.ltb 1 (primaries_with (p_cam p) all))  (* "same camera ID ... used as source in two paths" *)
-  | SInvalid => false                                       (* "invalid source" *)
+      then chk (Nat.eqb (primaries_with (p_cam p) all) 0) E_rpi_no_primary ;;
+           chk (existsb (Z.eqb (p_cam p)) taken) E_rpi_multi_secondary
+      else chk (Nat.ltb 1 (primaries_with (p_cam p) all)) E_rpi_dup
+  | SInvalid => Some E_source_invalid
   end.
 
-(* Path.validate: every `if cond { return err }` of the function, in code order, as the
-   conjunction of the negated conditions (the function has no other effect on these fields) *)
-Definition path_ok (playback : bool) (all : list pathc) (taken : list Z) (p : pathc) : bool :=
+Definition tracks_n (p : pathc) : Z := Z.of_nat (List.length (p_tracks p)).
+
+(* Path.validate: every `if cond { return err }` of the function, in code order *)
+Definition path_err (playback : bool) (all : list pathc) (taken : list Z) (p : pathc) : option verr :=
   let s := p_source p in
   let re := name_is_regex (p_name p) in
-  p_name_ok p                                                             (* name / regexp *)
-  && negb (negb (p_srt_pub p =? 0) && negb (src_eqb s SPublisher))        (* srtPublishPassphrase only with publisher *)
-  && negb (negb (src_eqb s SRedirect) && p_redirect p)                    (* sourceRedirect useless *)
-  && source_ok all taken p
-  && negb (p_on_demand p && src_eqb s SPublisher)                         (* sourceOnDemand useless with publisher *)
-  && negb (negb (p_on_demand p) && is_static s && re)                     (* regex + static source needs on demand *)
-  && negb (negb (p_srt_read p =? 0) && negb (srt_len_ok (p_srt_read p)))
-  && p_other_ok p                                                         (* forward, fallback *)
-  && negb (p_aa p && (re || p_on_demand p || p_run_demand p || negb (p_aa_src_ok p) || p_abs_ts p))
-  && record_path_ok playback (p_record_path p)
-  && negb (day_ns <? p_seg p)                                             (* maximum segment duration is 1 day *)
-  && negb (negb (p_del p =? 0) && (p_del p <? p_seg p))                   (* deleteAfter < segmentDuration *)
-  && negb (p_run_init p && re)
-  && negb (p_run_demand p && negb (src_eqb s SPublisher))
-  && forallb track_ok (p_tracks p).                                       (* every track, also when set through the environment *)
+  name_err p ;;
+  chk (negb (p_srt_pub p =? 0) && negb (src_eqb s SPublisher)) E_srt_pub_source ;;
+  chk (negb (src_eqb s SRedirect) && p_redirect p) E_redirect_useless ;;
+  source_err all taken p ;;
+  chk (p_on_demand p && src_eqb s SPublisher) E_on_demand_publisher ;;
+  chk (negb (p_on_demand p) && is_static s && re) E_regex_static_demand ;;
+  chk (negb (p_srt_read p =? 0) && negb (srt_len_ok (p_srt_read p))) E_srt_read_len ;;
+  chk (negb (p_forward_ok p)) E_forward ;;
+  chk (negb (p_fallback_ok p)) E_fallback ;;
+  chk (negb (forallb track_ok (p_tracks p))) E_tracks ;;       (* every track, also when set through the environment *)
+  when (p_aa p) (
+    chk re E_aa_regex ;;
+    chk (p_on_demand p) E_aa_on_demand ;;
+    chk (p_run_demand p) E_aa_run_on_demand ;;
+    (if e_aa_file (p_x p)
+     then chk (negb (tracks_n p =? 0)) E_aa_file_and_tracks ;; chk (negb (e_aa_file_ok (p_x p))) E_aa_file
+     else chk (tracks_n p =? 0) E_aa_no_tracks) ;;
+    chk (p_abs_ts p) E_aa_abs_ts) ;;
+  chk (negb (rec_has_path (p_record_path p))) E_rec_path ;;
+  chk (negb (rec_has_ts (p_record_path p))) E_rec_ts ;;
+  chk (playback && negb (contains (ph 102) (p_record_path p))) E_rec_f ;;
+  chk (day_ns <? p_seg p) E_seg_max ;;                                   (* maximum segment duration is 1 day *)
+  chk (negb (p_del p =? 0) && (p_del p <? p_seg p)) E_del_lt_seg ;;
+  chk (p_run_init p && re) E_run_on_init_regex ;;
+  chk (p_run_demand p && negb (src_eqb s SPublisher)) E_run_on_demand_source.
 
 Definition validate_path (playback : bool) (all : list pathc) (taken : list Z) (p : pathc)
   : result (pathc * list Z) :=
-  if path_ok playback all taken p
-  then Ok (set_regex p (name_is_regex (p_name p)),
-           if src_eqb (p_source p) SRpi && p_secondary p then p_cam p :: taken else taken)
-  else Err.
+  match path_err playback all taken p with
+  | Some e => Err e
+  | None =>
+      Ok (finish_path p (name_is_regex (p_name p)),
+          if src_eqb (p_source p) SRpi && p_secondary p then p_cam p :: taken else taken)
+  end.
 
 Fixpoint validate_paths (playback : bool) (all : list pathc) (taken : list Z) (ps : list pathc)
   : result (list pathc) :=
@@ -242,40 +513,358 @@ Fixpoint validate_paths (playback : bool) (all : list pathc) (taken : list Z) (p
   | [] => Ok []
   | p :: r =>
       match validate_path playback all taken p with
-      | Err => Err
+      | Err e => Err e
       | Ok (p', taken') =>
           match validate_paths playback all taken' r with
-          | Err => Err
+          | Err e => Err e
           | Ok r' => Ok (p' :: r')
           end
       end
   end.
 
+(* ---- deprecated credentials: the users appended by Path.validate, publish then read *)
+Definition cred_or (o : option (list Z)) (d : list Z) : list Z :=
+  match o with Some v => if nonempty v then v else d | None => d end.
+Definition ips_or (o : option Z) : Z := match o with Some n => if n =? 0 then 1 else n | None => 1 end.
+Definition perm_path (name : list Z) : list Z :=
+  if list_eqb name s_all_others || list_eqb name s_all then s_re_all else name.
+Definition path_users (p : pathc) : list userc :=
+  let e := p_x p in
+  [{| u_user := cred_or (e_pub_user e) s_any; u_pass := cred_or (e_pub_pass e) []; u_nips := ips_or (e_pub_ips e);
+      u_perms := [(0, perm_path (p_name p))] |};
+   {| u_user := cred_or (e_read_user e) s_any; u_pass := cred_or (e_read_pass e) []; u_nips := ips_or (e_read_ips e);
+      u_perms := [(1, perm_path (p_name p))] |}].
+Definition has_dep_creds (p : pathc) : bool :=
+  let e := p_x p in
+  negb (is_none (e_pub_user e) && is_none (e_pub_pass e) && is_none (e_pub_ips e) &&
+        is_none (e_read_user e) && is_none (e_read_pass e) && is_none (e_read_ips e)).
+
+(* ---- global plain fields added to the first version of this model *)
+Record xauth := {
+  a_ext_url : option (list Z);     (* deprecated externalAuthenticationURL -> authMethod = http, authHTTPAddress *)
+  a_method : Z;                    (* 0 internal, 1 http, 2 jwt, 3 anything else *)
+  a_http_addr : list Z;
+  a_pd_creds : bool;               (* pathDefaults has one of the six deprecated credential parameters *)
+  a_users_custom : bool;           (* AuthInternalUsers != nil && !reflect.DeepEqual(AuthInternalUsers, the defaults) *)
+  a_users : list userc;
+  a_jwks : list Z;
+  a_claim : list Z
+}.
+
+(* address + deprecated xAllowOrigin -> xAllowOrigins of a HTTP listener *)
+Record xsrv := {
+  s_addr : list Z;
+  s_origin : option (list Z);
+  s_origins : list (list Z)
+}.
+
+Record xrtsp := {
+  r_disable : option bool;                   (* deprecated rtspDisable -> rtsp *)
+  r_on : bool;
+  r_protocols : option (bool * bool * bool); (* deprecated protocols -> rtspTransports; (udp, multicast, tcp) in the set *)
+  r_transports : bool * bool * bool;
+  r_encryption_dep : option Z;               (* deprecated encryption -> rtspEncryption; 0 no 1 optional 2 strict 3 other *)
+  r_encryption : Z;
+  r_auth_methods_dep : option (list Z);      (* deprecated authMethods -> rtspAuthMethods; 0 basic 1 digest 2 other *)
+  r_auth_methods : list Z;
+  r_cert_dep : option (list Z);              (* deprecated serverCert -> rtspServerCert *)
+  r_cert : list Z;
+  r_key_dep : option (list Z);               (* deprecated serverKey -> rtspServerKey *)
+  r_key : list Z;
+  r_addr : list Z;
+  r_rtsps_addr : list Z;
+  r_rtp : list Z;
+  r_rtcp : list Z;
+  r_srtp : list Z;
+  r_srtcp : list Z;
+  r_mc_range : list Z;
+  r_mc_rtp : Z;
+  r_mc_rtcp : Z;
+  r_mc_srtp : Z;
+  r_mc_srtcp : Z
+}.
+
+Record xwebrtc := {
+  w_disable : option bool;                   (* deprecated webrtcDisable -> webrtc *)
+  w_on : bool;
+  w_srv : xsrv;
+  w_udp_mux : option (list Z);               (* deprecated webrtcICEUDPMuxAddress -> webrtcLocalUDPAddress *)
+  w_local_udp : list Z;
+  w_tcp_mux : option (list Z);               (* deprecated webrtcICETCPMuxAddress -> webrtcLocalTCPAddress *)
+  w_local_tcp : list Z;
+  w_nat_ips : option (list (list Z));        (* deprecated webrtcICEHostNAT1To1IPs -> webrtcAdditionalHosts *)
+  w_hosts : list (list Z);
+  w_ice_dep : option (list (list Z));        (* deprecated webrtcICEServers, appended to webrtcICEServers2 *)
+  w_ice : list (list Z * list Z * list Z);   (* webrtcICEServers2: (url, username, password) *)
+  w_from_ifaces : bool
+}.
+
+Record xmoq := {
+  m_on : bool;
+  m_quic : list Z;
+  m_https2 : option (list Z);                (* deprecated moqHTTPS2Address -> moqHTTP2Address *)
+  m_http2 : list Z;
+  m_https3 : option (list Z);
+  m_http3 : list Z
+}.
+
+(* deprecated top-level record parameters -> pathDefaults *)
+Record xrec := {
+  d_record : option bool;   d_pd_record : bool;
+  d_path : option (list Z); d_pd_path : list Z;
+  d_format : option Z;      d_pd_format : Z;        (* 0 fmp4 1 mpegts 2 other *)
+  d_part : option Z;        d_pd_part : Z;
+  d_seg : option Z;         d_pd_seg : Z;
+  d_del : option Z;         d_pd_del : Z
+}.
+
+Record gext := {
+  x_auth : xauth;
+  x_api : bool;     x_api_srv : xsrv;
+  x_metrics : bool; x_metrics_srv : xsrv;
+  x_pprof : bool;   x_pprof_srv : xsrv;
+  x_playback_srv : xsrv;                     (* enabled = g_playback *)
+  x_rtsp : xrtsp;
+  x_rtmp_disable : option bool; x_rtmp : bool; x_rtmp_addr : list Z;
+  x_hls_disable : option bool;  x_hls : bool;  x_hls_srv : xsrv;
+  x_hls_secret : bool;                       (* HLSCDNSecret != "" *)
+  x_hls_secret_ok : bool;                    (* oracle: rePlainCredential.MatchString(HLSCDNSecret) *)
+  x_webrtc : xwebrtc;
+  x_moq : xmoq;
+  x_rec : xrec
+}.
+
+Record gconf := {
+  g_read_to : Z;                   (* ReadTimeout, ns *)
+  g_write_to : Z;
+  g_wqs : Z;                       (* WriteQueueSize *)
+  g_read_buffer_count : option Z;  (* deprecated: overrides WriteQueueSize *)
+  g_udp : Z;                       (* UDPMaxPayloadSize *)
+  g_playback : bool;
+  g_x : gext;
+  g_paths : list pathc             (* merged path configurations, in sortedKeys order *)
+}.
+
+(* ---- migrations of the global deprecated parameters *)
+Definition dep_mode (g : gconf) : bool := a_pd_creds (x_auth (g_x g)) || existsb has_dep_creds (g_paths g).
+
+Definition auth_migrate (dep : bool) (a : xauth) : xauth :=
+  {| a_ext_url := a_ext_url a;
+     a_method := match a_ext_url a with Some _ => 1 | None => a_method a end;
+     a_http_addr := opt_or (a_ext_url a) (a_http_addr a);
+     a_pd_creds := a_pd_creds a; a_users_custom := a_users_custom a;
+     a_users := if dep then base_users else a_users a;
+     a_jwks := a_jwks a; a_claim := a_claim a |}.
+
+Definition srv_migrate (s : xsrv) : xsrv :=
+  {| s_addr := s_addr s; s_origin := s_origin s;
+     s_origins := match s_origin s with Some o => [o] | None => s_origins s end |}.
+
+Definition rtsp_migrate (r : xrtsp) : xrtsp :=
+  {| r_disable := r_disable r; r_on := match r_disable r with Some d => negb d | None => r_on r end;
+     r_protocols := r_protocols r; r_transports := opt_or (r_protocols r) (r_transports r);
+     r_encryption_dep := r_encryption_dep r; r_encryption := opt_or (r_encryption_dep r) (r_encryption r);
+     r_auth_methods_dep := r_auth_methods_dep r; r_auth_methods := opt_or (r_auth_methods_dep r) (r_auth_methods r);
+     r_cert_dep := r_cert_dep r; r_cert := opt_or (r_cert_dep r) (r_cert r);
+     r_key_dep := r_key_dep r; r_key := opt_or (r_key_dep r) (r_key r);
+     r_addr := r_addr r; r_rtsps_addr := r_rtsps_addr r; r_rtp := r_rtp r; r_rtcp := r_rtcp r; r_srtp := r_srtp r;
+     r_srtcp := r_srtcp r; r_mc_range := r_mc_range r; r_mc_rtp := r_mc_rtp r; r_mc_rtcp := r_mc_rtcp r;
+     r_mc_srtp := r_mc_srtp r; r_mc_srtcp := r_mc_srtcp r |}.
+
+(* strings.Split(s, ":") *)
+Fixpoint split_on (c : Z) (s : list Z) : list (list Z) :=
+  match s with
+  | [] => [[]]
+  | x :: r =>
+      if x =? c then [] :: split_on c r
+      else match split_on c r with
+           | p :: ps => (x :: p) :: ps
+           | [] => [[x]]
+           end
+  end.
+
+(* one entry of the deprecated webrtcICEServers: "proto:user:pass:host:port" or a plain URL *)
+Definition ice_convert (s : list Z) : list Z * list Z * list Z :=
+  match split_on 58 s with
+  | [p0; p1; p2; p3; p4] => (p0 ++ [58] ++ p3 ++ [58] ++ p4, p1, p2)
+  | _ => (s, [], [])
+  end.
+
+Definition webrtc_migrate (w : xwebrtc) : xwebrtc :=
+  {| w_disable := w_disable w; w_on := match w_disable w with Some d => negb d | None => w_on w end;
+     w_srv := srv_migrate (w_srv w);
+     w_udp_mux := w_udp_mux w; w_local_udp := opt_or (w_udp_mux w) (w_local_udp w);
+     w_tcp_mux := w_tcp_mux w; w_local_tcp := opt_or (w_tcp_mux w) (w_local_tcp w);
+     w_nat_ips := w_nat_ips w; w_hosts := opt_or (w_nat_ips w) (w_hosts w);
+     w_ice_dep := w_ice_dep w;
+     w_ice := match w_ice_dep w with Some l => w_ice w ++ map ice_convert l | None => w_ice w end;
+     w_from_ifaces := w_from_ifaces w |}.
+
+Definition moq_migrate (m : xmoq) : xmoq :=
+  {| m_on := m_on m; m_quic := m_quic m;
+     m_https2 := m_https2 m; m_http2 := opt_or (m_https2 m) (m_http2 m);
+     m_https3 := m_https3 m; m_http3 := opt_or (m_https3 m) (m_http3 m) |}.
+
+Definition rec_migrate (d : xrec) : xrec :=
+  {| d_record := d_record d; d_pd_record := opt_or (d_record d) (d_pd_record d);
+     d_path := d_path d; d_pd_path := opt_or (d_path d) (d_pd_path d);
+     d_format := d_format d; d_pd_format := opt_or (d_format d) (d_pd_format d);
+     d_part := d_part d; d_pd_part := opt_or (d_part d) (d_pd_part d);
+     d_seg := d_seg d; d_pd_seg := opt_or (d_seg d) (d_pd_seg d);
+     d_del := d_del d; d_pd_del := opt_or (d_del d) (d_pd_del d) |}.
+
+Definition gext_migrate (dep : bool) (x : gext) : gext :=
+  {| x_auth := auth_migrate dep (x_auth x);
+     x_api := x_api x; x_api_srv := srv_migrate (x_api_srv x);
+     x_metrics := x_metrics x; x_metrics_srv := srv_migrate (x_metrics_srv x);
+     x_pprof := x_pprof x; x_pprof_srv := srv_migrate (x_pprof_srv x);
+     x_playback_srv := srv_migrate (x_playback_srv x);
+     x_rtsp := rtsp_migrate (x_rtsp x);
+     x_rtmp_disable := x_rtmp_disable x; x_rtmp := match x_rtmp_disable x with Some d => negb d | None => x_rtmp x end;
+     x_rtmp_addr := x_rtmp_addr x;
+     x_hls_disable := x_hls_disable x; x_hls := match x_hls_disable x with Some d => negb d | None => x_hls x end;
+     x_hls_srv := srv_migrate (x_hls_srv x); x_hls_secret := x_hls_secret x; x_hls_secret_ok := x_hls_secret_ok x;
+     x_webrtc := webrtc_migrate (x_webrtc x);
+     x_moq := moq_migrate (x_moq x);
+     x_rec := rec_migrate (x_rec x) |}.
+
+(* ---- the global checks between 'udpMaxPayloadSize' and the alias check, in code order, on the migrated fields *)
+Definition http_url (s : list Z) : bool := prefix_b (bytes "http://") s || prefix_b (bytes "https://") s.
+
+Definition auth_err (dep : bool) (a : xauth) : option verr :=
+  chk (dep && a_users_custom a) E_users_and_legacy ;;
+  if a_method a =? 0 then users_err (a_users a)
+  else if a_method a =? 1 then
+    chk (empty (a_http_addr a)) E_http_addr_empty ;; chk (negb (http_url (a_http_addr a))) E_http_addr_scheme
+  else if a_method a =? 2 then
+    chk (empty (a_jwks a)) E_jwks_empty ;; chk (negb (http_url (a_jwks a))) E_jwks_scheme ;;
+    chk (empty (a_claim a)) E_claim_empty
+  else None.
+
+Definition t_udp (t : bool * bool * bool) : bool := fst (fst t).
+Definition t_mc (t : bool * bool * bool) : bool := snd (fst t).
+Definition user_hashed (u : userc) : bool := hashed (u_user u) || hashed (u_pass u).
+
+Definition has_digest (r : xrtsp) : bool := existsb (Z.eqb 1) (r_auth_methods r).
+
+Definition rtsp_err (a : xauth) (r : xrtsp) : option verr :=
+  let enc := r_encryption r in
+  when (r_on r) (
+    when ((enc =? 0) || (enc =? 1)) (
+      chk (empty (r_addr r)) E_rtsp_addr ;;
+      when (t_udp (r_transports r)) (chk (empty (r_rtp r)) E_rtp_addr ;; chk (empty (r_rtcp r)) E_rtcp_addr) ;;
+      when (t_mc (r_transports r)) (
+        chk (empty (r_mc_range r)) E_mc_range_plain ;; chk (r_mc_rtp r =? 0) E_mc_rtp ;; chk (r_mc_rtcp r =? 0) E_mc_rtcp)) ;;
+    when ((enc =? 1) || (enc =? 2)) (
+      chk (empty (r_rtsps_addr r)) E_rtsps_addr ;;
+      when (t_udp (r_transports r)) (chk (empty (r_srtp r)) E_srtp_addr ;; chk (empty (r_srtcp r)) E_srtcp_addr) ;;
+      when (t_mc (r_transports r)) (
+        chk (empty (r_mc_range r)) E_mc_range_secure ;; chk (r_mc_srtp r =? 0) E_mc_srtp ;; chk (r_mc_srtcp r =? 0) E_mc_srtcp)) ;;
+    chk (match r_auth_methods r with [] => true | _ => false end) E_rtsp_auth_methods ;;
+    when (has_digest r) (
+      chk (negb (a_method a =? 0)) E_digest_method ;;
+      chk (existsb user_hashed (a_users a)) E_digest_hashed)).
+
+Definition ice_url_ok (u : list Z) : bool :=
+  prefix_b (bytes "stun:") u || prefix_b (bytes "turn:") u || prefix_b (bytes "turns:") u.
+
+Definition webrtc_err (w : xwebrtc) : option verr :=
+  when (w_on w) (
+    chk (empty (s_addr (w_srv w))) E_webrtc_addr ;;
+    chk (negb (forallb (fun s => ice_url_ok (fst (fst s))) (w_ice w))) E_ice_server ;;
+    chk (empty (w_local_udp w) && empty (w_local_tcp w) && match w_ice w with [] => true | _ => false end) E_webrtc_no_transport ;;
+    when (nonempty (w_local_udp w) || nonempty (w_local_tcp w)) (
+      chk (negb (w_from_ifaces w) && match w_hosts w with [] => true | _ => false end) E_webrtc_no_hosts)).
+
+Definition gext_err (dep playback : bool) (x : gext) : option verr :=
+  auth_err dep (x_auth x) ;;
+  chk (x_api x && empty (s_addr (x_api_srv x))) E_api_addr ;;
+  chk (x_metrics x && empty (s_addr (x_metrics_srv x))) E_metrics_addr ;;
+  chk (x_pprof x && empty (s_addr (x_pprof_srv x))) E_pprof_addr ;;
+  chk (playback && empty (s_addr (x_playback_srv x))) E_playback_addr ;;
+  rtsp_err (x_auth x) (x_rtsp x) ;;
+  chk (x_rtmp x && empty (x_rtmp_addr x)) E_rtmp_addr ;;
+  chk (x_hls x && empty (s_addr (x_hls_srv x))) E_hls_addr ;;
+  chk (x_hls_secret x && negb (x_hls_secret_ok x)) E_hls_secret ;;
+  webrtc_err (x_webrtc x) ;;
+  chk (m_on (x_moq x) && empty (m_quic (x_moq x))) E_moq_addr.
+
+Definition set_users (x : gext) (us : list userc) : gext :=
+  let a := x_auth x in
+  {| x_auth := {| a_ext_url := a_ext_url a; a_method := a_method a; a_http_addr := a_http_addr a;
+                  a_pd_creds := a_pd_creds a; a_users_custom := a_users_custom a; a_users := us;
+                  a_jwks := a_jwks a; a_claim := a_claim a |};
+     x_api := x_api x; x_api_srv := x_api_srv x; x_metrics := x_metrics x; x_metrics_srv := x_metrics_srv x;
+     x_pprof := x_pprof x; x_pprof_srv := x_pprof_srv x; x_playback_srv := x_playback_srv x; x_rtsp := x_rtsp x;
+     x_rtmp_disable := x_rtmp_disable x; x_rtmp := x_rtmp x; x_rtmp_addr := x_rtmp_addr x;
+     x_hls_disable := x_hls_disable x; x_hls := x_hls x; x_hls_srv := x_hls_srv x; x_hls_secret := x_hls_secret x;
+     x_hls_secret_ok := x_hls_secret_ok x; x_webrtc := x_webrtc x; x_moq := x_moq x; x_rec := x_rec x |}.
+
+(* after the paths: the users generated from deprecated credentials get the checks of authInternalUsers
+   (a password without a user name would be ignored; hashed credentials do not work with RTSP digest) *)
+Definition any_with_pass (u : userc) : bool := list_eqb (u_user u) s_any && nonempty (u_pass u).
+Definition dep_users_err (x : gext) (us : list userc) : option verr :=
+  when (a_method (x_auth x) =? 0) (chk (existsb any_with_pass us) E_dep_any_pass) ;;
+  when (r_on (x_rtsp x) && has_digest (x_rtsp x)) (chk (existsb user_hashed us) E_dep_digest_hashed).
+
 Definition validate (g : gconf) : result gconf :=
   let wqs := match g_read_buffer_count g with Some x => x | None => g_wqs g end in
-  if g_read_to g <=? 0 then Err else
-  if g_write_to g <=? 0 then Err else
-  if wqs <=? 0 then Err else
-  if negb (Z.land wqs (wqs - 1) =? 0) then Err else
-  if 1472 <? g_udp g then Err else
-  if negb (g_other_ok g) then Err else
-  if Nat.ltb 1 (length (filter (fun p => is_alias (p_name p)) (g_paths g))) then Err else
-  match validate_paths (g_playback g) (g_paths g) [] (g_paths g) with
-  | Err => Err
-  | Ok ps =>
-      Ok {| g_read_to := g_read_to g; g_write_to := g_write_to g; g_wqs := wqs;
-            g_read_buffer_count := g_read_buffer_count g; g_udp := g_udp g; g_playback := g_playback g;
-            g_other_ok := g_other_ok g; g_paths := ps |}
+  let dep := dep_mode g in
+  let x := gext_migrate dep (g_x g) in
+  match chk (g_read_to g <=? 0) E_read_timeout ;;
+        chk (g_write_to g <=? 0) E_write_timeout ;;
+        chk (wqs <=? 0) E_wqs_pos ;;
+        chk (negb (Z.land wqs (wqs - 1) =? 0)) E_wqs_pow2 ;;
+        chk (1472 <? g_udp g) E_udp_max ;;
+        gext_err dep (g_playback g) x ;;
+        chk (Nat.ltb 1 (List.length (filter (fun p => is_alias (p_name p)) (g_paths g)))) E_aliases with
+  | Some e => Err e
+  | None =>
+      match validate_paths (g_playback g) (g_paths g) [] (g_paths g) with
+      | Err e => Err e
+      | Ok ps =>
+          (* deprecated credentials: every path appended its publish and its read user *)
+          let us := base_users ++ flat_map path_users ps in
+          match when dep (dep_users_err x us) with
+          | Some e => Err e
+          | None =>
+              Ok {| g_read_to := g_read_to g; g_write_to := g_write_to g; g_wqs := wqs;
+                    g_read_buffer_count := g_read_buffer_count g; g_udp := g_udp g; g_playback := g_playback g;
+                    g_x := if dep then set_users x us else x;
+                    g_paths := ps |}
+          end
+      end
   end.
 
 (* ------------------------------------------------------------------------------------- *)
-(* the documented constraints, as a boolean on a (real or modelled) validated configuration *)
+(* the documented constraints, as a boolean on a (real or modelled) validated configuration.
+   It never mentions an oracle field other than through p_source (a static source must have passed its checks). *)
 Fixpoint is_pow2_fuel (fuel : nat) (x : Z) : bool :=
   match fuel with
   | O => false
   | S k => (x =? 1) || ((0 <? x) && Z.even x && is_pow2_fuel k (x / 2))
   end.
 Definition is_pow2 (x : Z) : bool := is_pow2_fuel 70 x.   (* Go int: at most 2^62 *)
+
+Definition imp (a b : bool) : bool := negb a || b.
+Definition opt_eqb {A} (eqb : A -> A -> bool) (dep : option A) (cur : A) : bool :=
+  match dep with Some v => eqb v cur | None => true end.          (* deprecated parameter given -> its replacement has that value *)
+Definition ostr_eqb (a b : option (list Z)) : bool :=
+  match a, b with Some x, Some y => list_eqb x y | None, None => true | _, _ => false end.
+
+Definition rpi_documented_params (secondary : bool) (e : pext) : bool :=
+  negb (e_w e =? 0) && negb (e_h e =? 0) &&
+  imp (mjpeg_dims secondary e) ((e_w e <? 2048) && (e_w e mod 8 =? 0) && (e_h e <? 2048) && (e_h e mod 8 =? 0)) &&
+  str_in (e_exposure e) l_exposure && str_in (e_awb e) l_awb && (e_awb_gains e =? 2) &&
+  str_in (e_denoise e) l_denoise && str_in (e_metering e) l_metering && str_in (e_afmode e) l_afmode &&
+  str_in (e_afrange e) l_afrange && str_in (e_afspeed e) l_afspeed &&
+  imp (negb (is_none (e_profile e))) (ostr_eqb (e_hw_profile e) (e_profile e)) &&
+  imp (negb (is_none (e_level e))) (ostr_eqb (e_hw_level e) (e_level e)) &&
+  opt_in (e_hw_profile e) l_profile3 && opt_in (e_hw_level e) l_level &&
+  opt_in (e_sw_profile e) l_profile3 && opt_in (e_sw_level e) l_level &&
+  str_in (e_h264_profile e) l_profile4 && str_in (e_h264_level e) l_level &&
+  opt_eqb Z.eqb (e_jpeg_q e) (e_mjpeg_q e) &&
+  str_in (e_codec e) l_codec.
 
 Definition path_documented_b (playback : bool) (p : pathc) : bool :=
   Bool.eqb (p_regex p) (name_is_regex (p_name p)) &&
@@ -290,7 +879,19 @@ Definition path_documented_b (playback : bool) (p : pathc) : bool :=
   (negb (p_aa p) || (negb (p_regex p) && negb (p_on_demand p) && negb (p_run_demand p) && negb (p_abs_ts p))) &&
   negb (src_eqb (p_source p) SInvalid) && negb (src_eqb (p_source p) (SStatic false)) &&
   (negb (p_redirect p) || src_eqb (p_source p) SRedirect) &&
-  forallb track_ok (p_tracks p).
+  forallb track_ok (p_tracks p) &&
+  (* added with the plain-field checks *)
+  imp (src_eqb (p_source p) SRedirect) (p_redirect p) &&
+  imp (src_eqb (p_source p) SRpi) (rpi_documented_params (p_secondary p) (p_x p)) &&
+  imp (p_aa p) (if e_aa_file (p_x p) then tracks_n p =? 0 else negb (tracks_n p =? 0)) &&
+  imp (src_eqb (p_source p) SPublisher)
+      (match e_dis_pub_override (p_x p) with Some d => Bool.eqb (e_override_publisher (p_x p)) (negb d) | None => true end) &&
+  imp (is_rtsp_source p)
+      (opt_eqb Z.eqb (e_source_protocol (p_x p)) (e_rtsp_transport (p_x p)) &&
+       opt_eqb Bool.eqb (e_source_any_port (p_x p)) (e_rtsp_any_port (p_x p))) &&
+  opt_eqb list_eqb (e_on_ready (p_x p)) (e_on_available (p_x p)) &&
+  opt_eqb Bool.eqb (e_ready_restart (p_x p)) (e_available_restart (p_x p)) &&
+  opt_eqb list_eqb (e_on_not_ready (p_x p)) (e_on_unavailable (p_x p)).
 
 (* camera ids of the secondary rpiCamera streams *)
 Definition is_sec (p : pathc) : bool := src_eqb (p_source p) SRpi && p_secondary p.
@@ -309,8 +910,101 @@ Definition rpi_documented_b (ps : list pathc) : bool :=
     else Nat.leb (primaries_with (p_cam p) ps) 1) ps
   && nodup_b (sec_cams ps).
 
+(* ---- the global plain-field constraints *)
+Definition perm_eqb (a b : Z * list Z) : bool := (fst a =? fst b) && list_eqb (snd a) (snd b).
+Fixpoint list_eqb_with {A} (eqb : A -> A -> bool) (a b : list A) : bool :=
+  match a, b with
+  | [], [] => true
+  | x :: r, y :: s => eqb x y && list_eqb_with eqb r s
+  | _, _ => false
+  end.
+Definition user_eqb (a b : userc) : bool :=
+  list_eqb (u_user a) (u_user b) && list_eqb (u_pass a) (u_pass b) && (u_nips a =? u_nips b) &&
+  list_eqb_with perm_eqb (u_perms a) (u_perms b).
+Definition user_documented (u : userc) : bool :=
+  nonempty (u_user u) && imp (list_eqb (u_user u) s_any) (empty (u_pass u)).
+
+Definition auth_plain_b (a : xauth) : bool :=
+  match a_ext_url a with Some u => (a_method a =? 1) && list_eqb (a_http_addr a) u | None => true end &&
+  imp (a_method a =? 1) (nonempty (a_http_addr a) && http_url (a_http_addr a)) &&
+  imp (a_method a =? 2) (nonempty (a_jwks a) && http_url (a_jwks a) && nonempty (a_claim a)).
+
+Definition auth_documented_b (dep : bool) (ps : list pathc) (a : xauth) : bool :=
+  auth_plain_b a &&
+  imp (a_method a =? 0) (forallb user_documented (a_users a)) &&
+  imp dep (list_eqb_with user_eqb (a_users a) (base_users ++ flat_map path_users ps)).
+
+Definition srv_documented_b (on : bool) (s : xsrv) : bool :=
+  imp on (nonempty (s_addr s)) &&
+  match s_origin s with Some o => list_eqb_with list_eqb (s_origins s) [o] | None => true end.
+
+Definition t_eqb (a b : bool * bool * bool) : bool :=
+  Bool.eqb (fst (fst a)) (fst (fst b)) && Bool.eqb (snd (fst a)) (snd (fst b)) && Bool.eqb (snd a) (snd b).
+
+Definition rtsp_plain_b (r : xrtsp) : bool :=
+  let enc := r_encryption r in
+  match r_disable r with Some d => Bool.eqb (r_on r) (negb d) | None => true end &&
+  opt_eqb t_eqb (r_protocols r) (r_transports r) &&
+  opt_eqb Z.eqb (r_encryption_dep r) (r_encryption r) &&
+  opt_eqb (list_eqb_with Z.eqb) (r_auth_methods_dep r) (r_auth_methods r) &&
+  opt_eqb list_eqb (r_cert_dep r) (r_cert r) && opt_eqb list_eqb (r_key_dep r) (r_key r) &&
+  imp (r_on r) (
+    imp ((enc =? 0) || (enc =? 1)) (
+      nonempty (r_addr r) &&
+      imp (t_udp (r_transports r)) (nonempty (r_rtp r) && nonempty (r_rtcp r)) &&
+      imp (t_mc (r_transports r)) (nonempty (r_mc_range r) && negb (r_mc_rtp r =? 0) && negb (r_mc_rtcp r =? 0))) &&
+    imp ((enc =? 1) || (enc =? 2)) (
+      nonempty (r_rtsps_addr r) &&
+      imp (t_udp (r_transports r)) (nonempty (r_srtp r) && nonempty (r_srtcp r)) &&
+      imp (t_mc (r_transports r)) (nonempty (r_mc_range r) && negb (r_mc_srtp r =? 0) && negb (r_mc_srtcp r =? 0))) &&
+    match r_auth_methods r with [] => false | _ => true end).
+
+(* RTSP digest needs the internal method and clear-text credentials *)
+Definition rtsp_documented_b (a : xauth) (r : xrtsp) : bool :=
+  rtsp_plain_b r &&
+  imp (r_on r && has_digest r) ((a_method a =? 0) && negb (existsb user_hashed (a_users a))).
+
+Definition ice_eqb (a b : list Z * list Z * list Z) : bool :=
+  list_eqb (fst (fst a)) (fst (fst b)) && list_eqb (snd (fst a)) (snd (fst b)) && list_eqb (snd a) (snd b).
+
+Definition webrtc_documented_b (w : xwebrtc) : bool :=
+  match w_disable w with Some d => Bool.eqb (w_on w) (negb d) | None => true end &&
+  opt_eqb list_eqb (w_udp_mux w) (w_local_udp w) && opt_eqb list_eqb (w_tcp_mux w) (w_local_tcp w) &&
+  opt_eqb (list_eqb_with list_eqb) (w_nat_ips w) (w_hosts w) &&
+  match w_ice_dep w with
+  | Some l => list_eqb_with ice_eqb (skipn (List.length (w_ice w) - List.length l) (w_ice w)) (map ice_convert l)
+  | None => true
+  end &&
+  srv_documented_b (w_on w) (w_srv w) &&
+  imp (w_on w) (
+    forallb (fun s => ice_url_ok (fst (fst s))) (w_ice w) &&
+    (nonempty (w_local_udp w) || nonempty (w_local_tcp w) || match w_ice w with [] => false | _ => true end) &&
+    imp (nonempty (w_local_udp w) || nonempty (w_local_tcp w))
+        (w_from_ifaces w || match w_hosts w with [] => false | _ => true end)).
+
+Definition moq_documented_b (m : xmoq) : bool :=
+  imp (m_on m) (nonempty (m_quic m)) &&
+  opt_eqb list_eqb (m_https2 m) (m_http2 m) && opt_eqb list_eqb (m_https3 m) (m_http3 m).
+
+Definition rec_documented_b (d : xrec) : bool :=
+  opt_eqb Bool.eqb (d_record d) (d_pd_record d) && opt_eqb list_eqb (d_path d) (d_pd_path d) &&
+  opt_eqb Z.eqb (d_format d) (d_pd_format d) && opt_eqb Z.eqb (d_part d) (d_pd_part d) &&
+  opt_eqb Z.eqb (d_seg d) (d_pd_seg d) && opt_eqb Z.eqb (d_del d) (d_pd_del d).
+
+Definition gext_documented_b (dep playback : bool) (ps : list pathc) (x : gext) : bool :=
+  auth_documented_b dep ps (x_auth x) &&
+  srv_documented_b (x_api x) (x_api_srv x) && srv_documented_b (x_metrics x) (x_metrics_srv x) &&
+  srv_documented_b (x_pprof x) (x_pprof_srv x) && srv_documented_b playback (x_playback_srv x) &&
+  rtsp_documented_b (x_auth x) (x_rtsp x) &&
+  match x_rtmp_disable x with Some d => Bool.eqb (x_rtmp x) (negb d) | None => true end &&
+  imp (x_rtmp x) (nonempty (x_rtmp_addr x)) &&
+  match x_hls_disable x with Some d => Bool.eqb (x_hls x) (negb d) | None => true end &&
+  srv_documented_b (x_hls x) (x_hls_srv x) &&
+  webrtc_documented_b (x_webrtc x) && moq_documented_b (x_moq x) && rec_documented_b (x_rec x).
+
 Definition documented_b (g : gconf) : bool :=
   (0 <? g_read_to g) && (0 <? g_write_to g) && is_pow2 (g_wqs g) && (g_udp g <=? 1472) &&
-  Nat.leb (length (filter (fun p => is_alias (p_name p)) (g_paths g))) 1 &&
+  Nat.leb (List.length (filter (fun p => is_alias (p_name p)) (g_paths g))) 1 &&
   forallb (path_documented_b (g_playback g)) (g_paths g) &&
-  rpi_documented_b (g_paths g).
+  rpi_documented_b (g_paths g) &&
+  gext_documented_b (dep_mode g) (g_playback g) (g_paths g) (g_x g).
